@@ -1447,9 +1447,10 @@ structure NOInv (s : State) : Prop where
   pm : s.shared = false → ∀ n, s.map n = none
   bound : ∀ o ob, s.objs o = some ob → o < s.nextObj
   users : ∀ n u, u ∈ s.users n → ∃ tx, s.txs u = some tx
+  openOk : ∀ t tx, s.txs t = some tx → tx.isOpen = true → tx.failed = false
 
 theorem noInv_init (sh : Bool) (d0 : Disk) : NOInv (init sh d0) := by
-  refine ⟨?_, ?_, ?_, ?_, ?_, ?_, ?_, ?_, ?_, ?_, ?_⟩ <;> intros <;> simp_all [init]
+  refine ⟨?_, ?_, ?_, ?_, ?_, ?_, ?_, ?_, ?_, ?_, ?_, ?_⟩ <;> intros <;> simp_all [init]
 
 /-- `Done` only looks at three fields of the transaction's record -/
 theorem done_of_eq {s s' : State} {u : TxId} {n : Name}
@@ -1486,7 +1487,7 @@ theorem noInv_begin {s : State} (h : NOInv s) {t : TxId} (w : Bool) (ht : s.txs 
     intro hwt u tx hu h1 h2
     have := ((h.ver u tx hu).2.2 h1 h2).2
     rw [(hw hwt).1] at this; simp at this
-  refine ⟨?_, ?_, ?_, ?_, ?_, ?_, ?_, ?_, h.pm, h.bound, ?_⟩
+  refine ⟨?_, ?_, ?_, ?_, ?_, ?_, ?_, ?_, h.pm, h.bound, ?_, ?_⟩
   · intro u tx hu
     dsimp only at hu ⊢
     rcases upd_some_cases hu with ⟨rfl, rfl⟩ | ⟨hne, hold⟩
@@ -1551,6 +1552,11 @@ theorem noInv_begin {s : State} (h : NOInv s) {t : TxId} (w : Bool) (ht : s.txs 
     obtain ⟨tx, htx⟩ := h.users n u hu
     have : u ≠ t := fun e => hnu n (e ▸ hu)
     exact ⟨tx, by simp [upd, this]; exact htx⟩
+  · intro u tx hu hop
+    dsimp only at hu
+    rcases upd_some_cases hu with ⟨rfl, rfl⟩ | ⟨hne, hold⟩
+    · rfl
+    · exact h.openOk u tx hold hop
 
 
 /-- the fields of a transaction record the no-overlap invariant looks at -/
@@ -1597,7 +1603,7 @@ theorem noInv_readlike {s s' : State} (h : NOInv s) (e0 : s'.shared = s.shared)
     have := hcb u (e5 ▸ hu) tx' g1 (c.1.trans f2) (c.2.2.2.1.trans f3) (c.2.2.2.2.1.trans f4)
     rw [c.2.2.2.2.2.1] at this; exact this
   obtain ⟨hmem, obt, hobt, hnm, hown, hagt⟩ := h.cur t txt n o ht hc (not_done_of_open ht hop)
-  refine ⟨?_, ?_, ?_, ?_, ?_, ?_, ?_, ?_, by rw [e0, e4]; exact h.pm, ?_, ?_⟩
+  refine ⟨?_, ?_, ?_, ?_, ?_, ?_, ?_, ?_, by rw [e0, e4]; exact h.pm, ?_, ?_, ?_⟩
   · intro u tx' g1
     obtain ⟨tx, f1, c⟩ := htx u tx' g1
     obtain ⟨a, b, d⟩ := h.ver u tx f1
@@ -1675,6 +1681,9 @@ theorem noInv_readlike {s s' : State} (h : NOInv s) (e0 : s'.shared = s.shared)
     obtain ⟨tx, f1⟩ := h.users m u (e5 ▸ g1)
     obtain ⟨tx', g2, _⟩ := htx2 u tx f1
     exact ⟨tx', g2⟩
+  · intro u tx' g1 g2
+    obtain ⟨tx, f1, c⟩ := htx u tx' g1
+    rw [c.2.2.2.2.1]; exact h.openOk u tx f1 (c.2.2.2.1 ▸ g2)
 
 
 /-- like `CoreEq`, but a reader may have left a cache object (`cur` shrinks) -/
@@ -1721,7 +1730,7 @@ theorem noInv_coreSame {s s' : State} (h : NOInv s) (e0 : s'.shared = s.shared)
     obtain ⟨tx', g1, c⟩ := htx2 u utx f1
     have := hcb u (e5 ▸ hu) tx' g1 (c.1.trans f2) (c.2.2.2.1.trans f3) (c.2.2.2.2.1.trans f4)
     rw [c.2.2.2.2.2.1] at this; exact this
-  refine ⟨?_, ?_, ?_, ?_, ?_, ?_, ?_, ?_, by rw [e0, e4]; exact h.pm, ?_, ?_⟩
+  refine ⟨?_, ?_, ?_, ?_, ?_, ?_, ?_, ?_, by rw [e0, e4]; exact h.pm, ?_, ?_, ?_⟩
   · intro u tx' g1
     obtain ⟨tx, f1, c⟩ := htx u tx' g1
     obtain ⟨a, b, d⟩ := h.ver u tx f1
@@ -1767,6 +1776,9 @@ theorem noInv_coreSame {s s' : State} (h : NOInv s) (e0 : s'.shared = s.shared)
     obtain ⟨tx, f1⟩ := h.users m u (e5 ▸ g1)
     obtain ⟨tx', g2, _⟩ := htx2 u tx f1
     exact ⟨tx', g2⟩
+  · intro u tx' g1 g2
+    obtain ⟨tx, f1, c⟩ := htx u tx' g1
+    rw [c.2.2.2.2.1]; exact h.openOk u tx f1 (c.2.2.2.1 ▸ g2)
 
 theorem objs_same_keep {objs : ObjId → Option Obj} :
     (∀ o1 ob1, objs o1 = some ob1 → ∃ ob1', objs o1 = some ob1' ∧ ob1'.name = ob1.name ∧ ob1'.owner = ob1.owner ∧
@@ -1901,7 +1913,7 @@ theorem noInv_leave {s s' : State} {t : TxId} {n : Name} (h : NOInv s) (hs : ste
 
 theorem noInv_evict {s : State} (n0 : Name) (h : NOInv s) : NOInv { s with map := upd s.map n0 none } := by
   have hdone : ∀ u m, Done { s with map := upd s.map n0 none } u m ↔ Done s u m := fun u m => Iff.rfl
-  refine ⟨h.ver, h.fresh, h.committed, h.cur, h.excl, ?_, ?_, h.wusers, ?_, h.bound, h.users⟩
+  refine ⟨h.ver, h.fresh, h.committed, h.cur, h.excl, ?_, ?_, h.wusers, ?_, h.bound, h.users, h.openOk⟩
   · intro m o hm
     dsimp only at hm ⊢
     rcases upd_opt_cases hm with ⟨_, hx⟩ | ⟨_, hold⟩
@@ -1917,5 +1929,462 @@ theorem noInv_evict {s : State} (n0 : Name) (h : NOInv s) : NOInv { s with map :
     by_cases e : m = n0
     · subst e; exact upd_same _ _ _
     · rw [upd_other _ _ _ _ e]; exact h.pm hsh m
+
+theorem not_done_writer_cur {s : State} {t : TxId} {tx : Tx} {n : Name} {o : ObjId} (ht : s.txs t = some tx)
+    (hw : tx.isWrite = true) (hc : tx.cur n = some o) : ¬ Done s t n := by
+  rintro ⟨tx', h1, _, h3⟩
+  rw [ht] at h1; simp only [Option.some.injEq] at h1; subst h1
+  rw [h3 hw] at hc; simp at hc
+
+theorem noInv_release {s s' : State} {t : TxId} {n : Name} (h : NOInv s) (hs : stepRelease s t n = some s') : NOInv s' := by
+  obtain ⟨tx, o, ob, ht, hw, hop, hc, ho, hS⟩ := stepRelease_some hs
+  have hnd : ¬ Done s t n := not_done_writer_cur ht hw hc
+  obtain ⟨hmem, ob0, hob0, hnm, hown, hag⟩ := h.cur t tx n o ht hc hnd
+  rw [ho] at hob0; simp only [Option.some.injEq] at hob0; subst hob0
+  have hothers := h.excl n t tx hmem ht hnd
+  generalize s' = S at hS ⊢
+  have eT : S.txs = upd s.txs t (some { tx with cur := upd tx.cur n none }) := by rw [hS]
+  have eO : S.objs = upd s.objs o (some { ob with writer := none }) := by rw [hS]
+  have eM : S.map = if tx.failed ∧ s.map n = some o then upd s.map n none else s.map := by rw [hS]
+  have eU : S.users = s.users := by rw [hS]
+  have eL : S.latest = s.latest := by rw [hS]
+  have eV : S.nver = s.nver := by rw [hS]
+  have eW : S.writer = s.writer := by rw [hS]
+  have eN : S.nextObj = s.nextObj := by rw [hS]
+  have eSh : S.shared = s.shared := by rw [hS]
+  -- transactions of the new state
+  have htx : ∀ u tx', S.txs u = some tx' → ∃ tx0, s.txs u = some tx0 ∧ tx'.isWrite = tx0.isWrite ∧ tx'.snap = tx0.snap ∧
+      tx'.view = tx0.view ∧ tx'.isOpen = tx0.isOpen ∧ tx'.failed = tx0.failed ∧ tx'.endVer = tx0.endVer ∧
+      (∀ m o', tx'.cur m = some o' → tx0.cur m = some o' ∧ (u = t → m ≠ n)) ∧ (u ≠ t → tx' = tx0) := by
+    intro u tx' hu
+    rw [eT] at hu
+    rcases upd_some_cases hu with ⟨rfl, rfl⟩ | ⟨hne, hold⟩
+    · refine ⟨tx, ht, rfl, rfl, rfl, rfl, rfl, rfl, ?_, fun e => absurd rfl e⟩
+      intro m o' hm
+      dsimp only at hm
+      rcases upd_opt_cases hm with ⟨_, hx⟩ | ⟨hmn, hold⟩
+      · simp at hx
+      · exact ⟨hold, fun _ => hmn⟩
+    · exact ⟨tx', hold, rfl, rfl, rfl, rfl, rfl, rfl, fun m o' hm => ⟨hm, fun e => absurd e hne⟩, fun _ => rfl⟩
+  have htx2 : ∀ u tx0, s.txs u = some tx0 → ∃ tx', S.txs u = some tx' ∧ tx'.isWrite = tx0.isWrite ∧
+      tx'.view = tx0.view ∧ tx'.isOpen = tx0.isOpen ∧ tx'.failed = tx0.failed ∧ tx'.endVer = tx0.endVer ∧ tx'.snap = tx0.snap ∧
+      (∀ m, (u ≠ t ∨ m ≠ n) → tx'.cur m = tx0.cur m) ∧ (u = t → tx'.cur n = none) := by
+    intro u tx0 hu
+    rw [eT]
+    by_cases e : u = t
+    · subst e; rw [ht] at hu; simp only [Option.some.injEq] at hu; subst hu
+      refine ⟨_, upd_same _ _ _, rfl, rfl, rfl, rfl, rfl, rfl, ?_, fun _ => upd_same _ _ _⟩
+      intro m hm
+      rcases hm with hm | hm
+      · exact absurd rfl hm
+      · exact upd_other _ _ _ _ hm
+    · exact ⟨tx0, by rw [upd_other _ _ _ _ e]; exact hu, rfl, rfl, rfl, rfl, rfl, rfl, fun _ _ => rfl, fun e' => absurd e' e⟩
+  have hmono : ∀ u m, Done s u m → Done S u m := by
+    rintro u m ⟨tx0, f1, f2, f3⟩
+    obtain ⟨tx', g1, g2, _, g4, _, _, _, g8, g9⟩ := htx2 u tx0 f1
+    refine ⟨tx', g1, g4.trans f2, ?_⟩
+    intro hw'
+    by_cases e : u = t ∧ m = n
+    · obtain ⟨rfl, rfl⟩ := e; exact g9 rfl
+    · have : u ≠ t ∨ m ≠ n := by
+        by_cases e1 : u = t
+        · exact Or.inr (fun e2 => e ⟨e1, e2⟩)
+        · exact Or.inl e1
+      rw [g8 m this]; exact f3 (g2 ▸ hw')
+  have hback : ∀ u m, (u ≠ t ∨ m ≠ n) → Done S u m → Done s u m := by
+    rintro u m hne ⟨tx', g1, g2, g3⟩
+    obtain ⟨tx0, f1, a1, _, _, a4, _, _, _, _⟩ := htx u tx' g1
+    obtain ⟨tx'', g1', _, _, _, _, _, _, g8, _⟩ := htx2 u tx0 f1
+    rw [g1] at g1'; simp only [Option.some.injEq] at g1'; subst g1'
+    exact ⟨tx0, f1, a4 ▸ g2, fun hw' => by rw [← g8 m hne]; exact g3 (a1.trans hw')⟩
+  have hdoneT : Done S t n := by
+    obtain ⟨tx', g1, _, _, g4, _, _, _, _, g9⟩ := htx2 t tx ht
+    exact ⟨tx', g1, g4.trans hop, fun _ => g9 rfl⟩
+  have hend : ∀ u, endVerOf S u = endVerOf s u := by
+    intro u
+    unfold endVerOf
+    cases hu : s.txs u with
+    | none =>
+      cases hu' : S.txs u with
+      | none => rfl
+      | some tx' => obtain ⟨tx0, f1, _⟩ := htx u tx' hu'; rw [hu] at f1; simp at f1
+    | some tx0 =>
+      obtain ⟨tx', g1, _, _, _, _, g6, _⟩ := htx2 u tx0 hu
+      rw [g1]; exact g6
+  have hobj : ∀ o1 ob1, s.objs o1 = some ob1 → ∃ ob1', S.objs o1 = some ob1' ∧ ob1'.name = ob1.name ∧ ob1'.owner = ob1.owner ∧
+      ob1'.items = ob1.items := by
+    rw [eO]; exact (objs_upd_keep (ob' := { ob with writer := none }) ho rfl rfl rfl).1
+  have hcb : ∀ m k, CommittedBefore S m k → CommittedBefore s m k := by
+    intro m k hcb u hu utx f1 f2 f3 f4
+    obtain ⟨tx', g1, g2, _, g4, g5, g6, _⟩ := htx2 u utx f1
+    have := hcb u (eU ▸ hu) tx' g1 (g2.trans f2) (g4.trans f3) (g5.trans f4)
+    rw [g6] at this; exact this
+  refine ⟨?_, ?_, ?_, ?_, ?_, ?_, ?_, ?_, ?_, ?_, ?_, ?_⟩
+  · intro u tx' g1
+    obtain ⟨tx0, f1, a1, a2, _, a4, _, a6, _, _⟩ := htx u tx' g1
+    obtain ⟨x, y, z⟩ := h.ver u tx0 f1
+    rw [eV, eW, a2, a6, a1, a4]; exact ⟨x, y, z⟩
+  · intro u tx' m g1 g2 g3 g4
+    obtain ⟨tx0, f1, a1, a2, a3, a4, _, _, _, _⟩ := htx u tx' g1
+    rw [eL, a3]
+    exact h.fresh u tx0 m f1 (a4 ▸ g2) (fun hw' => by rw [← eU]; exact g3 (a1.trans hw')) (hcb m _ (a2 ▸ g4))
+  · intro u tx' m o' g1 g2 g3 g4 g5
+    obtain ⟨tx0, f1, a1, _, a3, a4, a5, _, a7, _⟩ := htx u tx' g1
+    rw [eL, a3]
+    exact h.committed u tx0 m o' f1 (a1 ▸ g2) (a4 ▸ g3) (a5 ▸ g4) (a7 m o' g5).1
+  · intro u tx' m o' g1 g2 g3
+    obtain ⟨tx0, f1, _, _, a3, _, _, _, a7, _⟩ := htx u tx' g1
+    have hne : u ≠ t ∨ m ≠ n := by
+      by_cases e1 : u = t
+      · exact Or.inr ((a7 m o' g2).2 e1)
+      · exact Or.inl e1
+    obtain ⟨hm, ob1, hob1, hn1, how1, hag1⟩ := h.cur u tx0 m o' f1 (a7 m o' g2).1 (fun hd => g3 (hmono u m hd))
+    obtain ⟨ob1', k1, k2, k3, k4⟩ := hobj o' ob1 hob1
+    exact ⟨eU ▸ hm, ob1', k1, k2.trans hn1, k3.trans how1, a3 ▸ agree_congr hag1 k4 rfl⟩
+  · intro m u tx' g1 g2 g3 v g4 g5
+    obtain ⟨tx0, f1, _, a2, _, _, _, _, _, _⟩ := htx u tx' g2
+    have := h.excl m u tx0 (eU ▸ g1) f1 (fun hd => g3 (hmono u m hd)) v (eU ▸ g4) g5
+    rw [a2, hend]; exact ⟨hmono v m this.1, this.2⟩
+  · intro m o' g1
+    rw [eM] at g1
+    by_cases emn : m = n
+    · subst emn
+      -- the manager's object for `m` survives only if `t` committed
+      have hmo : s.map m = some o' ∧ ¬ (tx.failed = true ∧ s.map m = some o) := by
+        by_cases hcnd : tx.failed = true ∧ s.map m = some o
+        · rw [if_pos hcnd, upd_same] at g1; simp at g1
+        · rw [if_neg hcnd] at g1; exact ⟨g1, hcnd⟩
+      have hoo : o' = o := by
+        rcases h.wmap t tx m o ht hw hc with hx | hx
+        · rw [hx] at hmo; simp at hmo
+        · rw [hx] at hmo; simp only [Option.some.injEq] at hmo; exact hmo.1.symm
+      subst hoo
+      have hnf : tx.failed = false := by
+        cases hf : tx.failed with
+        | false => rfl
+        | true => exact absurd ⟨hf, hmo.1⟩ hmo.2
+      refine ⟨{ ob with writer := none }, by rw [eO]; exact upd_same _ _ _, hnm, ?_, ?_⟩
+      · intro u g2 g3
+        exfalso
+        have hut : u ≠ t := fun e => g3 (e ▸ hdoneT)
+        exact g3 (hmono u m (hothers u (eU ▸ g2) hut).1)
+      · intro _
+        rw [eL]
+        exact agree_congr hag rfl (h.committed t tx m o' ht hw hop hnf hc).symm
+    · have hmo : s.map m = some o' := by
+        by_cases hcnd : tx.failed = true ∧ s.map n = some o
+        · rw [if_pos hcnd, upd_other _ _ _ _ emn] at g1; exact g1
+        · rw [if_neg hcnd] at g1; exact g1
+      obtain ⟨ob1, hob1, hn1, ha, hb⟩ := h.map m o' hmo
+      obtain ⟨ob1', k1, k2, k3, k4⟩ := hobj o' ob1 hob1
+      refine ⟨ob1', k1, k2.trans hn1, ?_, ?_⟩
+      · intro u g2 g3
+        obtain ⟨tx0, f1, hag0⟩ := ha u (eU ▸ g2) (fun hd => g3 (hmono u m hd))
+        obtain ⟨tx', g4, _, g6, _⟩ := htx2 u tx0 f1
+        exact ⟨tx', g4, g6 ▸ agree_congr hag0 k4 rfl⟩
+      · intro hall
+        rw [eL]
+        exact agree_congr (hb (fun u hu => hback u m (Or.inr emn) (hall u (eU ▸ hu)))) k4 rfl
+  · intro u tx' m o' g1 g2 g3
+    obtain ⟨tx0, f1, a1, _, _, _, _, _, a7, _⟩ := htx u tx' g1
+    have hold := h.wmap u tx0 m o' f1 (a1 ▸ g2) (a7 m o' g3).1
+    rw [eM]
+    by_cases emn : m = n
+    · subst emn
+      by_cases hut : u = t
+      · exact absurd rfl ((a7 m o' g3).2 hut)
+      · -- another writer holding an object of `m`: it would be a second active user
+        exfalso
+        have hndu : ¬ Done s u m := not_done_writer_cur f1 (a1 ▸ g2) (a7 m o' g3).1
+        obtain ⟨hmu, _⟩ := h.cur u tx0 m o' f1 (a7 m o' g3).1 hndu
+        exact hndu (hothers u hmu hut).1
+    · by_cases hcnd : tx.failed = true ∧ s.map n = some o
+      · rw [if_pos hcnd, upd_other _ _ _ _ emn]; exact hold
+      · rw [if_neg hcnd]; exact hold
+  · intro u tx' m g1 g2 g3 g4
+    obtain ⟨tx0, f1, a1, _, _, a4, _, _, _, a9⟩ := htx u tx' g1
+    have hut : u ≠ t := by
+      intro e; subst e
+      rw [ht] at f1; simp only [Option.some.injEq] at f1; subst f1
+      rw [a4, hop] at g3; simp at g3
+    rw [a9 hut]; rw [a9 hut] at g2 g3
+    exact h.wusers u tx0 m f1 g2 g3 (eU ▸ g4)
+  · intro hsh m
+    rw [eSh] at hsh
+    rw [eM]
+    have := h.pm hsh
+    by_cases hcnd : tx.failed = true ∧ s.map n = some o
+    · rw [this n] at hcnd; simp at hcnd
+    · rw [if_neg hcnd]; exact this m
+  · intro o1 ob1' g1
+    rw [eO] at g1
+    obtain ⟨ob1, f1⟩ := (objs_upd_keep (ob' := { ob with writer := none }) ho rfl rfl rfl).2 o1 ob1' g1
+    rw [eN]; exact h.bound o1 ob1 f1
+  · intro m u g1
+    obtain ⟨tx0, f1⟩ := h.users m u (eU ▸ g1)
+    obtain ⟨tx', g2, _⟩ := htx2 u tx0 f1
+    exact ⟨tx', g2⟩
+  · intro u tx' g1 g2
+    obtain ⟨tx0, f1, _, _, _, a4, a5, _, _, _⟩ := htx u tx' g1
+    rw [a5]; exact h.openOk u tx0 f1 (a4 ▸ g2)
+
+
+/-- a reader ends -/
+theorem noInv_closeR {s : State} (h : NOInv s) {t : TxId} {tx : Tx} (ht : s.txs t = some tx) (hop : tx.isOpen = true)
+    (hw : tx.isWrite = false) :
+    NOInv { s with txs := upd s.txs t (some { tx with isOpen := false, endVer := s.nver }) } := by
+  generalize hS : ({ s with txs := upd s.txs t (some { tx with isOpen := false, endVer := s.nver }) } : State) = S
+  have eT : S.txs = upd s.txs t (some { tx with isOpen := false, endVer := s.nver }) := by rw [← hS]
+  have eO : S.objs = s.objs := by rw [← hS]
+  have eM : S.map = s.map := by rw [← hS]
+  have eU : S.users = s.users := by rw [← hS]
+  have eL : S.latest = s.latest := by rw [← hS]
+  have eV : S.nver = s.nver := by rw [← hS]
+  have eW : S.writer = s.writer := by rw [← hS]
+  have eN : S.nextObj = s.nextObj := by rw [← hS]
+  have eSh : S.shared = s.shared := by rw [← hS]
+  have hother : ∀ u, u ≠ t → S.txs u = s.txs u := fun u hu => by rw [eT, upd_other _ _ _ _ hu]
+  have hself : S.txs t = some { tx with isOpen := false, endVer := s.nver } := by rw [eT, upd_same]
+  have hdoneT : ∀ m, Done S t m := fun m => ⟨_, hself, rfl, fun hw' => by rw [hw] at hw'; simp at hw'⟩
+  have hnotdone : ∀ m, ¬ Done s t m := fun m => not_done_of_open ht hop
+  have hdone : ∀ u m, u ≠ t → (Done S u m ↔ Done s u m) := fun u m hu => done_same (hother u hu)
+  have hmono : ∀ u m, Done s u m → Done S u m := by
+    intro u m hd
+    by_cases e : u = t
+    · subst e; exact hdoneT m
+    · exact (hdone u m e).2 hd
+  have hcb : ∀ m k, CommittedBefore S m k → CommittedBefore s m k := by
+    intro m k hcb u hu utx f1 f2 f3 f4
+    have hut : u ≠ t := by intro e; subst e; rw [ht] at f1; simp only [Option.some.injEq] at f1; subst f1; rw [hw] at f2; simp at f2
+    exact hcb u (eU ▸ hu) utx (by rw [hother u hut]; exact f1) f2 f3 f4
+  refine ⟨?_, ?_, ?_, ?_, ?_, ?_, ?_, ?_, by rw [eSh, eM]; exact h.pm, by rw [eO, eN]; exact h.bound, ?_, ?_⟩
+  · intro u tx' g1
+    rw [eV, eW]
+    by_cases e : u = t
+    · subst e; rw [hself] at g1; simp only [Option.some.injEq] at g1; subst g1
+      refine ⟨(h.ver u tx ht).1, Nat.le_refl _, ?_⟩
+      intro hw'; rw [hw] at hw'; simp at hw'
+    · rw [hother u e] at g1; exact h.ver u tx' g1
+  · intro u tx' m g1 g2 g3 g4
+    have e : u ≠ t := by intro e; subst e; rw [hself] at g1; simp only [Option.some.injEq] at g1; subst g1; simp at g2
+    rw [hother u e] at g1
+    rw [eL]; exact h.fresh u tx' m g1 g2 (by rw [← eU]; exact g3) (hcb m _ g4)
+  · intro u tx' m o' g1 g2 g3 g4 g5
+    have e : u ≠ t := by intro e; subst e; rw [hself] at g1; simp only [Option.some.injEq] at g1; subst g1; rw [hw] at g2; simp at g2
+    rw [hother u e] at g1
+    rw [eL]; exact h.committed u tx' m o' g1 g2 g3 g4 g5
+  · intro u tx' m o' g1 g2 g3
+    have e : u ≠ t := fun e => g3 (e ▸ hdoneT m)
+    rw [hother u e] at g1
+    rw [eU, eO]; exact h.cur u tx' m o' g1 g2 (fun hd => g3 (hmono u m hd))
+  · intro m u tx' g1 g2 g3 v g4 g5
+    have e : u ≠ t := fun e => g3 (e ▸ hdoneT m)
+    rw [hother u e] at g2
+    have := h.excl m u tx' (eU ▸ g1) g2 (fun hd => g3 (hmono u m hd)) v (eU ▸ g4) g5
+    have evt : v ≠ t := fun e' => hnotdone m (e' ▸ this.1)
+    exact ⟨hmono v m this.1, by rw [endVerOf_same (hother v evt)]; exact this.2⟩
+  · intro m o' g1
+    rw [eM] at g1
+    obtain ⟨ob1, hob1, hn1, ha, hb⟩ := h.map m o' g1
+    refine ⟨ob1, by rw [eO]; exact hob1, hn1, ?_, ?_⟩
+    · intro u g2 g3
+      have e : u ≠ t := fun e => g3 (e ▸ hdoneT m)
+      obtain ⟨tx0, f1, hag0⟩ := ha u (eU ▸ g2) (fun hd => g3 (hmono u m hd))
+      exact ⟨tx0, by rw [hother u e]; exact f1, hag0⟩
+    · intro hall
+      rw [eL]
+      by_cases hmem : t ∈ s.users m
+      · -- `t` was the active user of `m`: the object agrees with its view, which is still current
+        obtain ⟨tx0, f1, hag0⟩ := ha t hmem (hnotdone m)
+        rw [ht] at f1; simp only [Option.some.injEq] at f1; subst f1
+        have hfr := h.fresh t tx m ht hop (fun hw' => by rw [hw] at hw'; simp at hw') (by
+          intro v hv vtx f1 f2 f3 f4
+          have evt : v ≠ t := by intro e; subst e; rw [ht] at f1; simp only [Option.some.injEq] at f1; subst f1; rw [hw] at f2; simp at f2
+          have := (h.excl m t tx hmem ht (hnotdone m) v hv evt).2
+          unfold endVerOf at this; rw [f1] at this; exact this)
+        exact agree_congr hag0 rfl hfr.symm
+      · exact hb (fun u hu => by
+          have e : u ≠ t := fun e => hmem (e ▸ hu)
+          exact (hdone u m e).1 (hall u (eU ▸ hu)))
+  · intro u tx' m o' g1 g2 g3
+    have e : u ≠ t := by intro e; subst e; rw [hself] at g1; simp only [Option.some.injEq] at g1; subst g1; rw [hw] at g2; simp at g2
+    rw [hother u e] at g1
+    rw [eM]; exact h.wmap u tx' m o' g1 g2 g3
+  · intro u tx' m g1 g2 g3 g4
+    have e : u ≠ t := by intro e; subst e; rw [hself] at g1; simp only [Option.some.injEq] at g1; subst g1; simp at g3
+    rw [hother u e] at g1
+    exact h.wusers u tx' m g1 g2 g3 (eU ▸ g4)
+  · intro m u g1
+    by_cases e : u = t
+    · subst e; exact ⟨_, hself⟩
+    · obtain ⟨tx0, f1⟩ := h.users m u (eU ▸ g1); exact ⟨tx0, by rw [hother u e]; exact f1⟩
+  · intro u tx' g1 g2
+    have e : u ≠ t := by intro e; subst e; rw [hself] at g1; simp only [Option.some.injEq] at g1; subst g1; simp at g2
+    rw [hother u e] at g1
+    exact h.openOk u tx' g1 g2
+
+
+/-- a writer ends: commit (`f = false`: the new latest disk is its view, version `nver + 1`) or
+rollback (`f = true`) -/
+theorem noInv_closeW {s : State} (h : NOInv s) {t : TxId} {tx : Tx} (ht : s.txs t = some tx) (hop : tx.isOpen = true)
+    (hw : tx.isWrite = true) (L : Disk) (k : Nat) (f : Bool) (old : List Disk) (lg : List (List Op))
+    (hcase : (f = false ∧ L = tx.view ∧ k = s.nver + 1) ∨ (f = true ∧ L = s.latest ∧ k = s.nver)) :
+    NOInv { s with latest := L, older := old, nver := k, writer := none, log := lg,
+                   txs := upd s.txs t (some { tx with isOpen := false, failed := f, endVer := k }) } := by
+  generalize hS : ({ s with latest := L, older := old, nver := k, writer := none, log := lg, txs := upd s.txs t (some { tx with isOpen := false, failed := f, endVer := k }) } : State) = S
+  have eT : S.txs = upd s.txs t (some { tx with isOpen := false, failed := f, endVer := k }) := by rw [← hS]
+  have eO : S.objs = s.objs := by rw [← hS]
+  have eM : S.map = s.map := by rw [← hS]
+  have eU : S.users = s.users := by rw [← hS]
+  have eL : S.latest = L := by rw [← hS]
+  have eV : S.nver = k := by rw [← hS]
+  have eW : S.writer = none := by rw [← hS]
+  have eN : S.nextObj = s.nextObj := by rw [← hS]
+  have eSh : S.shared = s.shared := by rw [← hS]
+  have hother : ∀ u, u ≠ t → S.txs u = s.txs u := fun u hu => by rw [eT, upd_other _ _ _ _ hu]
+  have hself : S.txs t = some { tx with isOpen := false, failed := f, endVer := k } := by rw [eT, upd_same]
+  have hk : s.nver ≤ k := by rcases hcase with ⟨_, _, e⟩ | ⟨_, _, e⟩ <;> omega
+  have hsnap : tx.snap = s.nver ∧ s.writer = some t := (h.ver t tx ht).2.2 hw hop
+  have hnf : tx.failed = false := h.openOk t tx ht hop
+  -- `t` is the only open writer
+  have honly : ∀ u txu, s.txs u = some txu → txu.isWrite = true → txu.isOpen = true → u = t := by
+    intro u txu f1 f2 f3
+    have := ((h.ver u txu f1).2.2 f2 f3).2
+    rw [hsnap.2] at this; simp only [Option.some.injEq] at this; exact this.symm
+  have hnotdone : ∀ m, ¬ Done s t m := fun m => not_done_of_open ht hop
+  have hdone : ∀ u m, u ≠ t → (Done S u m ↔ Done s u m) := fun u m hu => done_same (hother u hu)
+  have hmono : ∀ u m, Done s u m → Done S u m := by
+    intro u m hd
+    by_cases e : u = t
+    · subst e; exact absurd hd (hnotdone m)
+    · exact (hdone u m e).2 hd
+  -- a name `t` never accessed has the same index content in its view as in the latest disk
+  have hidx : ∀ m, t ∉ s.users m → tx.view.idx m = s.latest.idx m := by
+    intro m hm
+    refine h.fresh t tx m ht hop (fun _ => hm) ?_
+    intro v _ vtx f1 _ _ _
+    rw [hsnap.1]; exact (h.ver v vtx f1).2.1
+  have hL : ∀ m, t ∉ s.users m → L.idx m = s.latest.idx m := by
+    intro m hm
+    rcases hcase with ⟨_, e, _⟩ | ⟨_, e, _⟩
+    · rw [e]; exact hidx m hm
+    · rw [e]
+  have hcb : ∀ m j, t ∉ s.users m → CommittedBefore S m j → CommittedBefore s m j := by
+    intro m j hm hcb u hu utx f1 f2 f3 f4
+    have hut : u ≠ t := fun e => hm (e ▸ hu)
+    exact hcb u (eU ▸ hu) utx (by rw [hother u hut]; exact f1) f2 f3 f4
+  refine ⟨?_, ?_, ?_, ?_, ?_, ?_, ?_, ?_, by rw [eSh, eM]; exact h.pm, by rw [eO, eN]; exact h.bound, ?_, ?_⟩
+  · intro u tx' g1
+    rw [eV, eW]
+    by_cases e : u = t
+    · subst e; rw [hself] at g1; simp only [Option.some.injEq] at g1; subst g1
+      refine ⟨Nat.le_trans (h.ver u tx ht).1 hk, Nat.le_refl _, ?_⟩
+      intro _ hop'; simp at hop'
+    · rw [hother u e] at g1
+      obtain ⟨a, b, c⟩ := h.ver u tx' g1
+      refine ⟨Nat.le_trans a hk, Nat.le_trans b hk, ?_⟩
+      intro f2 f3; exact absurd (honly u tx' g1 f2 f3) e
+  · intro u tx' m g1 g2 g3 g4
+    have e : u ≠ t := by intro e; subst e; rw [hself] at g1; simp only [Option.some.injEq] at g1; subst g1; simp at g2
+    rw [hother u e] at g1
+    rw [eL]
+    by_cases hm : t ∈ s.users m
+    · rcases hcase with ⟨ef, eL', ek⟩ | ⟨ef, eL', ek⟩
+      · -- `t` committed a version newer than the snapshot of `u`
+        exfalso
+        have := g4 t (eU ▸ hm) _ hself hw rfl (by simp [ef])
+        simp only [ek] at this
+        have := (h.ver u tx' g1).1
+        omega
+      · rw [eL']
+        refine h.fresh u tx' m g1 g2 (by rw [← eU]; exact g3) ?_
+        intro v hv vtx f1 f2 f3 f4
+        have hvt : v ≠ t := by intro e'; subst e'; rw [ht] at f1; simp only [Option.some.injEq] at f1; subst f1; rw [hop] at f3; simp at f3
+        exact g4 v (eU ▸ hv) vtx (by rw [hother v hvt]; exact f1) f2 f3 f4
+    · rw [hL m hm]
+      exact h.fresh u tx' m g1 g2 (by rw [← eU]; exact g3) (hcb m _ hm g4)
+  · intro u tx' m o' g1 g2 g3 g4 g5
+    rw [eL]
+    by_cases e : u = t
+    · subst e; rw [hself] at g1; simp only [Option.some.injEq] at g1; subst g1
+      dsimp only at g4 ⊢
+      rcases hcase with ⟨_, eL', _⟩ | ⟨ef, _, _⟩
+      · rw [eL']
+      · rw [ef] at g4; simp at g4
+    · rw [hother u e] at g1
+      have hndu : ¬ Done s u m := not_done_writer_cur g1 g2 g5
+      obtain ⟨hmu, _⟩ := h.cur u tx' m o' g1 g5 hndu
+      have hm : t ∉ s.users m := by
+        intro hm
+        exact hnotdone m (h.excl m u tx' hmu g1 hndu t hm (fun e' => e e'.symm)).1
+      rw [hL m hm]; exact h.committed u tx' m o' g1 g2 g3 g4 g5
+  · intro u tx' m o' g1 g2 g3
+    have hnd : ¬ Done s u m := fun hd => g3 (hmono u m hd)
+    by_cases e : u = t
+    · subst e; rw [hself] at g1; simp only [Option.some.injEq] at g1; subst g1
+      rw [eU, eO]; exact h.cur u tx m o' ht g2 hnd
+    · rw [hother u e] at g1
+      rw [eU, eO]; exact h.cur u tx' m o' g1 g2 hnd
+  · intro m u tx' g1 g2 g3 v g4 g5
+    have hnd : ¬ Done s u m := fun hd => g3 (hmono u m hd)
+    have key : ∀ txu, s.txs u = some txu → txu.snap = tx'.snap → Done S v m ∧ endVerOf S v ≤ tx'.snap := by
+      intro txu f1 f2
+      have := h.excl m u txu (eU ▸ g1) f1 hnd v (eU ▸ g4) g5
+      have evt : v ≠ t := fun e' => hnotdone m (e' ▸ this.1)
+      exact ⟨hmono v m this.1, by rw [endVerOf_same (hother v evt), ← f2]; exact this.2⟩
+    by_cases e : u = t
+    · subst e; rw [hself] at g2; simp only [Option.some.injEq] at g2; subst g2
+      exact key tx ht rfl
+    · rw [hother u e] at g2; exact key tx' g2 rfl
+  · intro m o' g1
+    rw [eM] at g1
+    obtain ⟨ob1, hob1, hn1, ha, hb⟩ := h.map m o' g1
+    refine ⟨ob1, by rw [eO]; exact hob1, hn1, ?_, ?_⟩
+    · intro u g2 g3
+      obtain ⟨tx0, f1, hag0⟩ := ha u (eU ▸ g2) (fun hd => g3 (hmono u m hd))
+      by_cases e : u = t
+      · subst e; rw [ht] at f1; simp only [Option.some.injEq] at f1; subst f1
+        exact ⟨_, hself, hag0⟩
+      · exact ⟨tx0, by rw [hother u e]; exact f1, hag0⟩
+    · intro hall
+      rw [eL]
+      by_cases hm : t ∈ s.users m
+      · -- `t` still holds its object of `m`, so not everybody is done
+        exfalso
+        obtain ⟨tx1, f1, _, f3⟩ := hall t (eU ▸ hm)
+        rw [hself] at f1; simp only [Option.some.injEq] at f1; subst f1
+        exact h.wusers t tx m ht hw hop hm (f3 hw)
+      · refine agree_congr (hb (fun u hu => ?_)) rfl (hL m hm)
+        have e : u ≠ t := fun e => hm (e ▸ hu)
+        exact (hdone u m e).1 (hall u (eU ▸ hu))
+  · intro u tx' m o' g1 g2 g3
+    rw [eM]
+    by_cases e : u = t
+    · subst e; rw [hself] at g1; simp only [Option.some.injEq] at g1; subst g1
+      exact h.wmap u tx m o' ht hw g3
+    · rw [hother u e] at g1; exact h.wmap u tx' m o' g1 g2 g3
+  · intro u tx' m g1 g2 g3 g4
+    exfalso
+    by_cases e : u = t
+    · subst e; rw [hself] at g1; simp only [Option.some.injEq] at g1; subst g1; simp at g3
+    · rw [hother u e] at g1; exact e (honly u tx' g1 g2 g3)
+  · intro m u g1
+    by_cases e : u = t
+    · subst e; exact ⟨_, hself⟩
+    · obtain ⟨tx0, f1⟩ := h.users m u (eU ▸ g1); exact ⟨tx0, by rw [hother u e]; exact f1⟩
+  · intro u tx' g1 g2
+    have e : u ≠ t := by intro e; subst e; rw [hself] at g1; simp only [Option.some.injEq] at g1; subst g1; simp at g2
+    rw [hother u e] at g1
+    exact h.openOk u tx' g1 g2
+
+theorem noInv_close {s s' : State} {t : TxId} {ok : Bool} (h : NOInv s) (hs : stepClose s t ok = some s') : NOInv s' := by
+  obtain ⟨tx, ht, hop, hcase⟩ := stepClose_some hs
+  cases hcase with
+  | reader hw hu => exact noInv_closeR h ht hop hw
+  | commit hw =>
+    have hnf := h.openOk t tx ht hop
+    exact noInv_closeW h ht hop hw tx.view (s.nver + 1) tx.failed (s.latest :: s.older) (s.log ++ [tx.ops]) (Or.inl ⟨hnf, rfl, rfl⟩)
+  | rollback hw =>
+    exact noInv_closeW h ht hop hw s.latest s.nver true s.older s.log (Or.inr ⟨rfl, rfl, rfl⟩)
 
 end Sema.C09
